@@ -852,6 +852,13 @@ func (b *BlockWise[C]) processReceivedMessage(w *responsewriter.ResponseWriter[C
 	sendMessage.SetToken(token)
 	if blockType == message.Block2 {
 		num = payloadSize / szx.Size()
+		if num == 0 && (sentRequest.Code() == codes.POST || sentRequest.Code() == codes.PUT) {
+			// the response would have to be fetched from its first block again, but a POST/PUT
+			// without its body is a different request: give up instead of sending it.
+			b.cc.ReleaseMessage(sendMessage)
+			err = errors.New("cannot restart response of a request with body")
+			return err
+		}
 		sendMessage.ResetOptionsTo(sentRequest.Options())
 		sendMessage.SetCode(sentRequest.Code())
 		sendMessage.Remove(message.Observe)
